@@ -878,7 +878,7 @@ def correspondence(ctx):
                     _check(ctx, 'dn_monotone', inp, desc, True, f'bits{bits}/{kind}')
                 if frames != 1:
                     _check(ctx, 'dn_frames', inp, desc, True, f'bits{bits}')
-                if bits <= 14:
+                if bits <= 14:   # (a table of 2^bits entries)
                     lk = ('identity', 'scramble', 'gamma')[(bits + frames) % 3]
                     _check(ctx, 'dn_lut', dict(inp, lut=lk), dict(desc, lut=lk), True, f'bits{bits}/{lk}/frames{frames}')
         # sorted ramp through saturation, unit gain and a fractional gain
@@ -1046,6 +1046,26 @@ def correspondence(ctx):
                         k = np.unravel_index(int(np.argmax(np.abs(got - model))), model.shape) if got.shape == model.shape else None
                         ctx.disagree('malvar', desc, f'{got[k] if k else got.shape} at {k}', f'{model[k] if k else model.shape}')
                 ask(f'malvar {cfa} {m} {n} {_il(img)}', chk)
+
+                def chk(row, img=img, cfa=cfa, desc=desc, m=m, n=n):
+                    model = np.moveaxis(_rats(row).reshape(3, m // 2, n // 2), 0, 2)
+                    ctx.case('deinterlace', desc, tag=cfa)
+                    got = by.demosaic_deinterlace(img.copy(), cfa)
+                    if got.shape != model.shape or not np.array_equal(got, model):
+                        ctx.disagree('deinterlace', desc, f'{got.shape}: {np.asarray(got).ravel()[:6].tolist()}', f'{model.shape}: {model.ravel()[:6].tolist()}')
+                ask(f'deinterlace {cfa} {m} {n} {_il(img)}', chk)
+                g3 = [float(x) for x in np.round(rng.uniform(0.4, 2.6, 3), 3)]
+                rgb0 = rng.integers(1, 999, size=(m // 2, n // 2, 3)).astype(float)
+
+                def chk(row, rgb0=rgb0, g3=g3, desc=desc, m=m, n=n):
+                    model = np.moveaxis(_rats(row).reshape(3, m // 2, n // 2), 0, 2)
+                    ctx.case('wb_postscale.model', dict(desc, gains=g3), tag='distinct gains')
+                    out = rgb0.copy()
+                    by.wb_postscale(out, *g3)
+                    if not np.allclose(out, model, rtol=1e-14, atol=0):
+                        ctx.disagree('wb_postscale', dict(desc, gains=g3), 'scaled image differs', 'model: each channel by its own gain')
+                ask(f'postscale {m // 2} {n // 2} ' + ' '.join(C.q2w(Fraction(str(x))) for x in g3) + ' '
+                    + ' '.join(_il(rgb0[..., k]) for k in range(3)), chk)
                 gains = [float(x) for x in np.round(rng.uniform(0.5, 2.5, 4), 3)]
                 gq = [Fraction(str(x)) for x in gains]
 
@@ -1093,6 +1113,22 @@ def correspondence(ctx):
                 hotname = [nm for nm in PL if nat[nm] == (r0, c0)][0]
                 sats = [sat * (0.4 if nm == hotname else 1.0 + 0.5 * k) for k, nm in enumerate(PL)]
                 for sv in (sat, sats):
+                    def chk(row, base=base, cfa=cfa, sv=sv, hot=hot, m=m, n=n):
+                        model = float(_rats(row)[0])
+                        d = {'shape': [m, n], 'cfa': cfa, 'kind': 'pre', 'hot': hot, 'saturation': sv}
+                        ctx.case('wb_safe.ratio', d, tag=f'pre/{"list" if isinstance(sv, list) else "scalar"}/{"limited" if model > 1 else "untouched"}')
+                        out = base.copy()
+                        try:
+                            by.wb_prescale(out, 1.0, 1.0, 1.0, 1.0, cfa=cfa, safe=True, saturation=sv)
+                        except Exception as ex:
+                            ctx.disagree('wb_safe.ratio', d, f'raised {type(ex).__name__}: {ex}', f'ratio {model}')
+                            return
+                        got = float(base[0, 0] / out[0, 0])
+                        if abs(got - model) > 1e-12 * model or not np.allclose(out * model, base, rtol=1e-12, atol=0):
+                            ctx.disagree('wb_safe.ratio', d, f'descaling ratio {got!r}', f'{model!r}')
+                    pls = by.decomposite_bayer(base, cfa)
+                    svl = sv if isinstance(sv, list) else [sv] * 4
+                    ask('saferatio ' + ' '.join(f'{C.q2w(Fraction(float(p.max())))} {C.q2w(Fraction(float(q)))}' for p, q in zip(pls, svl)), chk)
                     _check(ctx, 'wb_safe', {'kind': 'pre', 'img': base.tolist(), 'cfa': cfa if hot % 2 else cfa.upper(), 'saturation': sv},
                            {'shape': [m, n], 'cfa': cfa, 'kind': 'pre', 'hot': hot, 'saturation': sv}, True,
                            f'pre/hot{hot}/{"list" if isinstance(sv, list) else "scalar"}')
@@ -1102,6 +1138,21 @@ def correspondence(ctx):
                 sat = float(rng.choice([900.0, 1500.0, 5000.0]))
                 sats = [sat * (0.4 if k == hot else 1.0 + 0.5 * k) for k in range(3)]
                 for sv in (sat, sats):
+                    def chk(row, rgb=rgb, sv=sv, hot=hot, m=m, n=n):
+                        model = float(_rats(row)[0])
+                        d = {'shape': [m // 2, n // 2, 3], 'kind': 'post', 'hot': hot, 'saturation': sv}
+                        ctx.case('wb_safe.ratio', d, tag=f'post/{"list" if isinstance(sv, list) else "scalar"}/{"limited" if model > 1 else "untouched"}')
+                        out = rgb.copy()
+                        try:
+                            by.wb_postscale(out, 1.0, 1.0, 1.0, safe=True, saturation=sv)
+                        except Exception as ex:
+                            ctx.disagree('wb_safe.ratio', d, f'raised {type(ex).__name__}: {ex}', f'ratio {model}')
+                            return
+                        got = float(rgb[0, 0, 0] / out[0, 0, 0])
+                        if abs(got - model) > 1e-12 * model or not np.allclose(out * model, rgb, rtol=1e-12, atol=0):
+                            ctx.disagree('wb_safe.ratio', d, f'descaling ratio {got!r}', f'{model!r}')
+                    svl = sv if isinstance(sv, list) else [sv] * 3
+                    ask('saferatio ' + ' '.join(f'{C.q2w(Fraction(float(rgb[..., k].max())))} {C.q2w(Fraction(float(svl[k])))}' for k in range(3)), chk)
                     _check(ctx, 'wb_safe', {'kind': 'post', 'rgb': rgb.tolist(), 'saturation': sv},
                            {'shape': [m // 2, n // 2, 3], 'kind': 'post', 'hot': hot, 'saturation': sv}, True,
                            f'post/hot{hot}/{"list" if isinstance(sv, list) else "scalar"}')
